@@ -176,7 +176,19 @@ class StubSink(ClientMessageSink):
       m = MethodReturnMessage(error=error)
     else:
       m = MethodReturnMessage(return_value=value)
-    r.stack.AsyncProcessResponseMessage(m)
+    import gevent
+
+    def deliver():
+      r.stack.AsyncProcessResponseMessage(m)
+      fn = getattr(self.provider.world, 'on_response_delivered', None)
+      if fn:
+        fn(r)
+    if gevent.getcurrent() is gevent.get_hub():
+      # Real transports deliver responses from their own greenlets, which may
+      # block (e.g. on the balancer's heap lock); the hub must never block.
+      gevent.spawn(deliver)
+    else:
+      deliver()
     return True
 
 
